@@ -36,6 +36,8 @@ class Check(BaseCheck):
             if c.get("vdtype") != "int64":
                 v = v * float(rng.choice([1.0, 1.0, 1e-6, 1e3]))      # the averaging weights do not depend on the unit of length
             cols = int(rng.integers(1, 4))
+            if len(v) <= 12 and rng.random() < 0.5:
+                cols = [len(v) + 1, len(t) + 2, len(v), len(t), 3 * len(v)][int(rng.integers(0, 5))]      # more columns than vertices / triangles: rows stay rows
             mode = ["unit", "unit", "offset", "tiny"][int(rng.integers(0, 4))]
             shape = lambda a: {"unit": a, "offset": 1e4 + 1e-2 * a, "tiny": 1e-9 * a}[mode]   # noqa: E731
             vf = shape(rng.normal(size=(len(v), cols))); tf = shape(rng.normal(size=(len(t), cols)))
